@@ -234,6 +234,11 @@ class Flow:
         if last in TERM_OK:
             self.add(False, "terminal-" + last, body, at, "%s is order-insensitive" % last)
             return
+        if last in ("find", "find_map", "position") and self.result_only_selects_err(body, bb, t):
+            self.add(False, "terminal-%s-err-only" % last, body, at, "%s result is only tested: Some(..) leads to an Err return, None continues "
+                     "(Err iff some element satisfies the predicate, whatever the order; the element only reaches the error value)" % last)
+            self.closure_effects(body, t, at, last)
+            return
         if last in TERM_SENSITIVE:
             self.add(True, "terminal-" + last, body, at, "%s over an unordered iteration depends on hash order" % last)
             return
@@ -337,6 +342,8 @@ class Flow:
                     t = body.blocks[bb]["term"]
                     # drops and drop-flag tests outside the loop do not observe the value
                     if idx == -1 and t["k"] in ("drop",):
+                        continue
+                    if idx >= 0 and self.is_drop_glue(body, l, bb, idx):
                         continue
                     return True
             return False
@@ -443,6 +450,131 @@ class Flow:
         else:
             self.findings.append((False, tag + ":commutative-body", path, at,
                                   "body only inserts into maps/sets, steps counters, continues or returns Err"))
+
+    def result_only_selects_err(self, body, bb, t):
+        """The Option returned by the call at bb is only matched: every path from its `Some` edge assigns an Err to the return
+        place before it can reach the code that follows the `None` edge, and its payload is read on those paths only."""
+        if t["dst"]["p"]:
+            return False
+        holders = {t["dst"]["l"]}
+        changed = True
+        while changed:          # plain moves of the Option
+            changed = False
+            for h in list(holders):
+                for (ub, idx, node) in uses_of_local(body, h):
+                    if idx >= 0 and node["k"] == "assign" and not node["dst"]["p"] and node["rv"]["k"] == "use":
+                        q = op_place(node["rv"]["op"])
+                        if q is not None and q["l"] == h and not q["p"] and node["dst"]["l"] not in holders:
+                            holders.add(node["dst"]["l"])
+                            changed = True
+        some_e, none_e = [], []
+        for (e, tb, fa) in body.all_edge_facts():
+            if fa[0] == "variant" and fa[1]["l"] in holders and not fa[1]["p"]:
+                (some_e if fa[2] == "Some" else none_e).append((e, tb))
+        if not some_e or not none_e:
+            return False
+        cont = set()
+        cut = {e for (e, tb) in some_e}
+        stack = [tb for (e, tb) in none_e]
+        while stack:          # the continuation: everything the None case can reach without taking a Some edge of this result
+            x = stack.pop()
+            if x in cont:
+                continue
+            cont.add(x)
+            for j, (nb, _lab) in enumerate(body.succ[x]):
+                if (x, j) not in cut:
+                    stack.append(nb)
+        err_region = set()
+        for (e, tb) in some_e:
+            # walk from the Some edge; stop at blocks that assign Err to _0 / from_residual; reaching the continuation
+            # (other than a pure return tail) before that means the Some case carries on
+            stack, seen = [tb], set()
+            while stack:
+                x = stack.pop()
+                if x in seen:
+                    continue
+                seen.add(x)
+                blk = body.blocks[x]
+                assigned = None
+                for st in blk["stmts"]:
+                    if st["k"] == "assign" and st["dst"]["l"] == 0 and not st["dst"]["p"]:
+                        assigned = "Err" if (st["rv"]["k"] == "agg" and st["rv"].get("variant") == "Err") else "other"
+                tt = blk["term"]
+                if tt and tt["k"] == "call" and tt["dst"]["l"] == 0 and not tt["dst"]["p"]:
+                    assigned = "Err" if (callee_name(tt) or "").endswith("FromResidual::from_residual") else "other"
+                if assigned == "Err":
+                    continue
+                if assigned == "other" or tt is None or tt["k"] == "return":
+                    return False
+                if x in cont and self.exit_kind(body, x) != "return":
+                    return False
+                if tt["k"] == "call" and callee_name(tt) == "std::iter::Iterator::next":
+                    return False
+                for (nb, _lab) in body.succ[x]:
+                    stack.append(nb)
+            err_region |= seen
+        # payload reads only inside the error region
+        for h in holders:
+            for (ub, idx, node) in uses_of_local(body, h):
+                if ub not in body.reach or ub in err_region:
+                    continue
+                if idx == -1:
+                    if node["k"] in ("drop", "switch"):
+                        continue
+                    return False
+                if node["k"] == "assign":
+                    rv = node["rv"]
+                    if rv["k"] == "discr":
+                        continue
+                    if rv["k"] == "use" and op_place(rv["op"]) and not op_place(rv["op"])["p"] and node["dst"]["l"] in holders:
+                        continue
+                    return False
+        return True
+
+    def is_drop_glue(self, body, l, bb, idx=0):
+        """Block bb starts an elaborated ("open") drop of local l: from bb, blocks that only read discriminants of l, set drop
+        flags and drop parts of l, branching on those discriminants, and the branches reconverge at a single block - whichever
+        variant l holds, control continues at the same place and no payload is copied out."""
+        def glue_block(x):
+            blk = body.blocks[x]
+            locs = set()
+            for si, st in enumerate(blk["stmts"]):
+                if x == bb and si < idx:
+                    continue
+                if st["k"] != "assign" or st["dst"]["p"]:
+                    return None
+                rv = st["rv"]
+                if rv["k"] == "discr" and rv["place"]["l"] == l:
+                    locs.add(st["dst"]["l"])
+                elif rv["k"] == "use" and op_const(rv["op"]) is not None and body.local_ty(st["dst"]["l"]) in ("bool", "()") \
+                        and not body.locals[st["dst"]["l"]].get("name"):
+                    continue
+                else:
+                    return None
+            t = blk["term"]
+            if t is None:
+                return None
+            if t["k"] == "goto":
+                return locs
+            if t["k"] == "drop" and t["place"]["l"] == l:
+                return locs
+            if t["k"] == "switch":
+                p = op_place(t["discr"])
+                if p is not None and not p["p"] and (p["l"] in locs or body.local_ty(p["l"]) == "bool" and not body.locals[p["l"]].get("name")):
+                    return locs
+            return None
+        seen, frontier, stack = set(), set(), [bb]
+        while stack:
+            x = stack.pop()
+            if x in seen:
+                continue
+            if glue_block(x) is None or (x != bb and len([1 for (p, _j) in body.pred[x] if p in body.reach and p not in seen]) > 0 and False):
+                frontier.add(x)
+                continue
+            seen.add(x)
+            for (nb, lab) in body.succ[x]:
+                stack.append(nb)
+        return bool(seen) and len(frontier) == 1
 
     def pointee_is_loop_local(self, body, l, loop, is_outer, depth=0):
         """Pointer local l points to memory that is fresh per iteration or belongs to the element."""
@@ -627,7 +759,7 @@ class Flow:
                 problems.append(("mutates-outer", t["at"], "passes captured &mut state to %s" % n))
         # unordered sources inside the closure are separate inventory entries (found by the scan)
         # return value: for try_for_each the closure returns Result<(), E>
-        if not pure_only:
+        if not pure_only and cb.local_ty(0) != "()":      # for_each discards the closure's (unit) result
             for lf in cb.trace({"l": 0, "p": []}):
                 if lf.kind == "agg" and lf.data[2].get("variant") in ("Ok", "Err", "Continue", "Break"):
                     continue
@@ -677,6 +809,41 @@ class Flow:
                     if self.derives_from_upvar(cb, op_place(d.node["args"][0])["l"], depth + 1):
                         return True
         return False
+
+
+def allow_owner(fx, cg, fpath, what):
+    """The allow-table function an order-sensitive site belongs to: the function itself, or - for a module-private helper -
+    the listed function of the same module from which alone (directly or through such helpers) it is called."""
+    from ..cg import vis_kind
+    if (fpath, what) in ALLOW:
+        return fpath
+    cands = [f for f in fx.doc["fns"] if clean(f["path"]) == fpath]
+    if len(cands) != 1:
+        return None
+    owners = set()
+    seen = set()
+    stack = [fx.root_of(cands[0])["key"]]
+    while stack:
+        k = stack.pop()
+        if k in seen:
+            continue
+        seen.add(k)
+        f = fx.fns[k]
+        p = clean(f["path"])
+        if (p, what) in ALLOW:
+            owners.add(p)
+            continue
+        if f["kind"] not in ("Fn", "AssocFn") or vis_kind(f) != "private" or f.get("impl_trait"):
+            return None
+        callers = {fx.root_of(fx.fns[ck])["key"] for ck in fx.fns for (cbb, ct, tgt) in cg.sites.get(ck, ()) if tgt == k}
+        if not callers:
+            return None
+        stack.extend(callers)
+    if len(owners) == 1:
+        o = next(iter(owners))
+        if o.rsplit("::", 1)[0] == fpath.rsplit("::", 1)[0] or fpath.startswith(o.rsplit("::", 1)[0]):
+            return o
+    return None
 
 
 def scope_keys(ctx):
@@ -734,8 +901,9 @@ def run(ctx):
             unallowed = []
             allowed = []
             for (s_, what, fpath2, at, detail) in sens:
-                if (fpath2, what) in ALLOW:
-                    allowed.append((what, ALLOW[(fpath2, what)]))
+                owner = allow_owner(fx, cg, fpath2, what)
+                if owner is not None:
+                    allowed.append((what, ALLOW[(owner, what)] + ("" if owner == fpath2 else " [in %s, a private helper only called from %s]" % (fpath2, owner))))
                 else:
                     unallowed.append((what, fpath2, at, detail))
             if not unallowed:
